@@ -108,8 +108,9 @@ int kalign_essential_input_check(struct msa *msa, int exit_on_error)
                                         e--;
                                 }
                         }
+                        /* keep the spare pre-allocated entries: they are owned by the array and freed with it */
                         for(int i = msa->numseq; i < msa->alloc_numseq;i++){
-                                 tmp[i] = NULL;
+                                 tmp[i] = msa->sequences[i];
                         }
 
                         MFREE(msa->sequences);
